@@ -731,11 +731,30 @@ def ev_dyadic(facts):
     # From<f64>: always flagged approximate, denotes exactly the float, normalised
     FK = '<%s as std::convert::From<f64>>::from' % DY
     res['from-f64'] = [True, '']
-    for x in (0.0, 1.0, -2.5, 0.001, 3.0e10, -7.0 / 3.0, 2.0 ** -40):
+    for x in (0.0, -0.0, 1.0, -2.5, 0.001, 3.0e10, -7.0 / 3.0, 2.0 ** -40, -(2.0 ** -1000), 1.7976931348623157e308):
         r = _dy_call(facts, FK, [x])
         n += 1
         if not _dy_wellformed(r) or not (r['flags'] & 2) or _dy_value(r) != Fr(x):
-            fail('from-f64', 'Dyadic::from(%r) = %s (must denote the float exactly, be normalised and be flagged approximate)' % (x, show(r)))
+            fail('from-f64', 'Dyadic::from(%r) = %s (must denote the float exactly, be normalised — zero has one representation, without a sign — and be flagged approximate)' % (x, show(r)))
+    # conversion to f64: every dyadic whose value is an ordinary float (well inside the range: 2^-950 .. 2^950) converts, to the nearest float
+    TFK = 'scalar::dyadic::<impl std::convert::TryFrom<%s> for f64>::try_from' % DY
+    res['to-f64'] = [True, '']
+    if TFK in facts['fns']:
+        for v_, e_ in ((1, 0), (-3, 5), (1, -40), (5, -300), (-7, 300), (1, -900), (3, 900), (1, -244), (1, 371), (12345, -700), ((1 << 62) + 1, -62), (0, 0)):
+            d_ = _dy_call(facts, DY + '::new', [v_, e_])
+            r = _dy_call(facts, TFK, [d_])
+            n += 1
+            want_ = float(Fr(v_) * Fr(2) ** e_)
+            if not (isinstance(r, tuple) and r[0] == 'Ok' and isinstance(r[1], float) and abs(r[1] - want_) <= 1e-15 * abs(want_)):
+                fail('to-f64', 'f64::try_from(%d * 2^%d) = %r, the value is the ordinary float %r' % (v_, e_, r, want_))
+    # zero has one representation however it arises: a signed zero would order below zero and differ from it
+    z0 = _dy_call(facts, FK, [0.0])
+    for zx in (_dy_call(facts, FK, [-0.0]), _dy_call(facts, MULK, [_dy_call(facts, DY + '::new', [-3, 2]), _dy_call(facts, DY + '::new', [0, 0])]),
+               _dy_call(facts, ADDK, [_dy_call(facts, DY + '::new', [-5, 1]), _dy_call(facts, DY + '::new', [5, 1])]), _dy_call(facts, '<%s as std::ops::Neg>::neg' % DY, [_dy_call(facts, DY + '::new', [0, 0])])):
+        n += 2
+        o = _dy_call(facts, CMP, [zx, z0])
+        if not _dy_wellformed(zx) or not (isinstance(o, tuple) and str(o[1]).endswith('Equal')):
+            fail('order', 'a zero that arises as -0.0, (-12) * 0, (-10) + 10 or -(0) is represented as %s and compares %s with zero' % (show(zx), o[1].rsplit('::', 1)[-1] if isinstance(o, tuple) else o))
     # taint: an approximate operand makes the result approximate (a product with an exact zero is exactly zero)
     reps = [d for d in dom if d['exp'] in (0, -64)][:9] + [dom[0]]
     for a in reps:
@@ -1134,7 +1153,7 @@ def _run_own(ck):
                 'taint': 'an approximate operand makes the result approximate',
                 'error-bound': 'an approximate result is off by no more than the truncation explains',
                 'order': 'cmp agrees with the order of the reals',
-                'neg': 'negation is exact and keeps the representation', 'from-f64': 'a Dyadic built from a float denotes it exactly and is flagged approximate',
+                'neg': 'negation is exact and keeps the representation', 'from-f64': 'a Dyadic built from a float denotes it exactly and is flagged approximate', 'to-f64': 'a dyadic whose value is an ordinary float converts to it',
                 'operands-untouched': 'operands are values'}
         for name, (ok, cex) in sorted(sem.items()):
             ck.ob('E3-dyadic', name, ok, ck.site(ADD if name not in ('order', 'neg') else CMP), '%s: %s' % (msgs[name], cex), sample={'evaluations': nev})
